@@ -193,8 +193,9 @@ func runWork(args []string) {
 						calls += 2
 						ns = append(ns, len(hay))
 						ws = append(ws, wk)
-						if d > 40*time.Millisecond {
-							slow = true // do not pump further: the points measured so far decide
+						_ = d
+						if wk > 25_000_000 {
+							slow = true // do not pump further: the points measured so far decide (a work bound, not a time bound: deterministic)
 						}
 					}
 					measured++
